@@ -14,7 +14,7 @@ RULE = ('Hypothesis draws a domain (1-4 attrs, sizes 1-5), a public dataset of 1
         'reference estimate; data frame unchanged; loss recomputed from weighted contingency tables <= loss of uniform '
         'weights with the same total. Non-trivial = >=2 public records in different measured cells and final loss < 0.99 '
         'x initial loss; distinct by sha1.')
-BUDGET = {'quick': 640, 'thorough': 16000}
+BUDGET = {'quick': 480, 'thorough': 16000}
 TIME = {'quick': 110, 'thorough': 1500}
 
 
@@ -106,6 +106,13 @@ def run_case(case):
     eng = mbi.PublicInference(public, metric=case['metric'])
     est = eng.estimate(ms, total=case['total'])
     w = np.asarray(est.weights, dtype=float)
+    if case['pub_seed'] % 3 == 0:
+        # the same engine is used again with another total: what was handed back before must not change
+        w_before = w.copy()
+        est2 = eng.estimate(ms, total=(float(case['total']) if case['total'] is not None else 10.0) * 2.5)
+        if not np.array_equal(np.asarray(est.weights, dtype=float), w_before, equal_nan=True):
+            return out.fail('earlier_result_changed', 'the weights returned by the first estimate call changed when estimate was called again (sum %r -> %r)' % (float(w_before.sum()), float(np.sum(est.weights))))
+        out.classes.append('second_call_same_engine')
     out.classes += ['metric:' + case['metric'], 'total:' + ('given' if case['total'] is not None else 'estimated')]
     if w.shape != (n,):
         return out.fail('invalid:length', 'weights have shape %s for %d public records' % (w.shape, n))
